@@ -195,8 +195,62 @@ func lookalikes() []string {
 	return append(out, "-.5", "- .5", "-1e1", "1e1", "0x10", "1_0", "-0x10", "1.5.5", "1..5", ".5.", "-5", "- 5", "-  5.50", "+5", "1 - - 1", "1--1", "1 -1", "inf-1", "inf -1", "inf - 1")
 }
 
+// exhaustiveAlphabet: one representative of every kind of token (and of every keyword class)
+var exhaustiveAlphabet = []string{"/", "//", "*", "@", "[", "]", "(", ")", "1", ".5", "'s'", "$n", "a", "p", "child", "text", "::", ":", ".", "..", "|", "-", "and", "div", ",", "="}
+
+// GenSyntaxExhaustive enumerates EVERY sequence of at most maxLen tokens of exhaustiveAlphabet,
+// written with single spaces (and, for the short ones, also without any space): a small scope in
+// which the model's parser and the generated GLL parser must agree on acceptance, tree and value.
+func GenSyntaxExhaustive(w *Writer, maxLen int) error {
+	c, err := xsel.ReadXml(strings.NewReader("<a xmlns:p='urn:p'>1<p>2</p><child s='x'>3<a>4</a></child><text/></a>"))
+	if err != nil {
+		return err
+	}
+	d := &Doc{Id: "exhdoc", Dump: DumpTree(c)}
+	w.Line("doc "+d.Id+" "+d.Dump.Sexp(), "wf=1", map[string]interface{}{"k": "doc", "doc": d.Id, "nodes": len(d.Dump.Cursors)})
+	env := Env{Ns: []NsBind{{"p", "urn:p"}}, Vars: []VarBind{{Local: "n", Val: Value{Kind: "num", Num: 2}}}}
+	idx := make([]int, 0, maxLen)
+	var rec func()
+	emit := func() {
+		parts := make([]string, len(idx))
+		for i, k := range idx {
+			parts[i] = exhaustiveAlphabet[k]
+		}
+		s := strings.Join(parts, " ")
+		w.Syn("syn-exhaustive", s, nil)
+		w.EvalX("syn-exhaustive-eval", d, env, 1, s)
+		if len(idx) <= 3 && len(idx) > 1 {
+			t := strings.Join(parts, "")
+			w.Syn("syn-exhaustive-nospace", t, nil)
+			w.EvalX("syn-exhaustive-nospace-eval", d, env, 1, t)
+		}
+	}
+	rec = func() {
+		if len(idx) > 0 {
+			emit()
+		}
+		if len(idx) == maxLen {
+			return
+		}
+		for k := range exhaustiveAlphabet {
+			idx = append(idx, k)
+			rec()
+			idx = idx[:len(idx)-1]
+		}
+	}
+	rec()
+	return nil
+}
+
 // GenSyntaxFamily: C08 — the lexer and the parser against the model's lexer and parser on strings.
 func GenSyntaxFamily(w *Writer, r *Rng, t Tier) error {
+	if t.Thorough {
+		if err := GenSyntaxExhaustive(w, 4); err != nil {
+			return err
+		}
+	} else if err := GenSyntaxExhaustive(w, 2); err != nil {
+		return err
+	}
 	{
 		c, err := xsel.ReadXml(strings.NewReader("<r xmlns:p='urn:p'><a><b/><b>1</b></a><ancestor.or-self/><preceding_sibling p:x='1'/></r>"))
 		if err != nil {
